@@ -98,6 +98,43 @@ type facts struct {
 	chanCap, doneChCap, popMax                       int
 	drainOnDone, releaseSticky, doneBeforeRelease    bool
 	doneCaseReturns, fifoOpsLocked, pushAppendsToEnd bool
+	// the hand-over in WriteEventWithTimestamp
+	handoverSends, handoverSelects, handoverGoStmts int
+	handoverPlainSend                               bool
+}
+
+// handoverFacts: how WriteEventWithTimestamp (function literals inside it included) puts the message
+// into toBatchMessagesChan. handoverPlainSend: there is exactly one send on that channel and it is an
+// ordinary statement of a block — not the communication of a select clause — so it blocks until the
+// channel takes the message; handoverSelects / handoverGoStmts count every select / go statement in
+// the function (there is none: nothing is tried, nothing is finished in the background).
+func handoverFacts(ft *facts, fd *ast.FuncDecl) {
+	var stack []ast.Node
+	plain := 0
+	ast.Inspect(fd, func(n ast.Node) bool {
+		if n == nil {
+			stack = stack[:len(stack)-1]
+			return true
+		}
+		switch x := n.(type) {
+		case *ast.SelectStmt:
+			ft.handoverSelects++
+		case *ast.GoStmt:
+			ft.handoverGoStmts++
+		case *ast.SendStmt:
+			if strings.HasSuffix(exprPath(x.Chan), ".toBatchMessagesChan") {
+				ft.handoverSends++
+				if len(stack) > 0 {
+					if _, ok := stack[len(stack)-1].(*ast.BlockStmt); ok {
+						plain++
+					}
+				}
+			}
+		}
+		stack = append(stack, n)
+		return true
+	})
+	ft.handoverPlainSend = ft.handoverSends == 1 && plain == 1
 }
 
 func astFacts(repo string) (facts, error) {
@@ -147,6 +184,19 @@ func astFacts(repo string) (facts, error) {
 	if ft.chanCap < 0 || ft.doneChCap < 0 {
 		return ft, fmt.Errorf("channel capacities not found in NewWriterWithTopic")
 	}
+	// (*KafkaWriter).WriteEventWithTimestamp — the DummyWriter has a method of the same name
+	var wev *ast.FuncDecl
+	for _, d := range wf.Decls {
+		if fd, ok := d.(*ast.FuncDecl); ok && fd.Name.Name == "WriteEventWithTimestamp" && fd.Body != nil && fd.Recv != nil && len(fd.Recv.List) == 1 {
+			if st, ok := fd.Recv.List[0].Type.(*ast.StarExpr); ok && exprPath(st.X) == "KafkaWriter" {
+				wev = fd
+			}
+		}
+	}
+	if wev == nil {
+		return ft, fmt.Errorf("WriteEventWithTimestamp not found")
+	}
+	handoverFacts(&ft, wev)
 	// writing loop: for { select { case <-done: …; default: PopMultiple(N) … } }
 	wl := funcDecl(wf, "writingLoop")
 	if wl == nil || len(wl.Body.List) != 1 {
@@ -359,6 +409,10 @@ func genFacts(repo string) (string, error) {
 	fmt.Fprintf(&b, "/-- go/ast, fifobuffer.go: Push, PopMultiple and ReleaseGoroutines start by taking the lock and release it. -/\ndef fifoOpsLocked : Bool := %s\n", lb(ft.fifoOpsLocked))
 	fmt.Fprintf(&b, "/-- go/ast: Push is `buffer = append(buffer, value)`. -/\ndef pushAppendsToEnd : Bool := %s\n", lb(ft.pushAppendsToEnd))
 	fmt.Fprintf(&b, "/-- go/ast: ReleaseGoroutines assigns something (a sticky released flag). -/\ndef releaseSticky : Bool := %s\n\n", lb(ft.releaseSticky))
+	fmt.Fprintf(&b, "/-- go/ast, WriteEventWithTimestamp (function literals included): sends on toBatchMessagesChan. -/\ndef handoverSends : Nat := %d\n", ft.handoverSends)
+	fmt.Fprintf(&b, "/-- go/ast: there is exactly one such send and it is an ordinary statement of a block (not the communication of a select clause): it blocks until the channel takes the message. -/\ndef handoverPlainSend : Bool := %s\n", lb(ft.handoverPlainSend))
+	fmt.Fprintf(&b, "/-- go/ast: select statements anywhere in WriteEventWithTimestamp. -/\ndef handoverSelects : Nat := %d\n", ft.handoverSelects)
+	fmt.Fprintf(&b, "/-- go/ast: go statements anywhere in WriteEventWithTimestamp. -/\ndef handoverGoStmts : Nat := %d\n\n", ft.handoverGoStmts)
 	b.WriteString("/-- The linked FifoBuffer evaluated: (n, len, PopMultiple(n) after pushing 0..len-1, what is left). -/\ndef popTable : List (Nat × Nat × List Nat × List Nat) := [\n")
 	b.WriteString(popTable())
 	b.WriteString("\n]\n\n/-- The linked WriteEventWithTimestamp evaluated through the hook: (kind, env id number, task id number, key code). -/\ndef keyTable : List (Nat × Nat × Nat × Nat) := [\n")
